@@ -24,10 +24,16 @@ Definition CommitGuard (s : nstate) : Prop :=
   if amev_on cfg s then precommit_quorum s /\ preBlockProcessed s = true /\ slot (PreCommitPayloads s) (MyIndex s) <> None
   else prep_quorum s.
 Definition PreCommitGuard (s : nstate) : Prop := amev_on cfg s = true /\ prep_quorum s.
+(* C15: a proposal is built from the context's timestamp, nonce and transaction list, and that timestamp is not below
+   previous + increment (mod 2^64, as the code computes it) *)
+Definition ReqGuard (s : nstate) (p : payload) : Prop :=
+  p_body p = B0 (BPrepareRequest (Timestamp s) (Nonce s) (TransactionHashes s)) /\ p_height p = BlockIndex s /\ p_view p = ViewNumber s /\
+  u64 (lastBlockTimestamp s + cfg_inc cfg) <= Timestamp s.
 
 Definition G (s : nstate) (c : call) : Prop :=
   match c with
   | CBroadcast p => (match p_type p with
+                     | PrepareRequestT => ReqGuard s p
                      | PrepareResponseT => RespGuard s p
                      | CommitT => CommitGuard s
                      | PreCommitT => PreCommitGuard s
@@ -154,10 +160,10 @@ Lemma RI_Inv a b : RI a b -> Inv a -> Inv b. Proof. intros (H & _). exact H. Qed
 Lemma RF_U a b : RF a b -> U a -> U b. Proof. intros H. apply RI_U, RF_RI, H. Qed.
 
 (* broadcasting an ungated, non-recovery payload from an undecided state *)
-Definition ungated (t : mtype) : Prop := t <> PrepareResponseT /\ t <> CommitT /\ t <> PreCommitT.
+Definition ungated (t : mtype) : Prop := t <> PrepareRequestT /\ t <> PrepareResponseT /\ t <> CommitT /\ t <> PreCommitT.
 Lemma G_broadcast_ungated s m i : ungated (p_type m) -> U s -> G s (CBroadcast (m <| p_idx := i |>)).
 Proof.
-  intros (U1 & U2 & U3) Hu. unfold G. rewrite p_type_set_idx. split; [|intros _; exact Hu].
+  intros (U0 & U1 & U2 & U3) Hu. unfold G. rewrite p_type_set_idx. split; [|intros _; exact Hu].
   destruct (p_type m); try exact I; congruence.
 Qed.
 
@@ -608,12 +614,22 @@ Proof.
     apply G_broadcast_ungated; [repeat split; discriminate|assumption].
 Qed.
 
-Lemma t_makePrepareRequest force s0 :
-  hx s0 (makePrepareRequest cfg force) (fun r s tr => RI s0 s /\ trG G tr /\ forall m, r = Some m -> p_type m = PrepareRequestT).
+Definition TsOK (s : nstate) : Prop := u64 (lastBlockTimestamp s + cfg_inc cfg) <= Timestamp s.
+Lemma fill_ts force s0 : hx s0 (Fill cfg force) (fun r s tr => r = true -> TsOK s).
 Proof.
-  unfold makePrepareRequest. eapply x_rt; [apply (i_Fill force)|].
-  intros ok s1 n1 R1 T1. cbn beta. destruct ok; cbn [negb].
-  - apply x_get. apply x_ret. rewrite app_nil_r. split; [exact R1|split; [exact T1|]]. intros m [= <-]. reflexivity.
+  unfold Fill, getTimestamp, ask_now. xs. all: try discriminate. all: intros _; unfold TsOK.
+  all: match goal with |- context[if ?b then _ else _] => destruct b eqn:E1 end; cbn [Timestamp lastBlockTimestamp set].
+  - apply Z.gtb_lt in E1. cbn [Timestamp lastBlockTimestamp set] in E1. lia.
+  - lia.
+Qed.
+Definition ReqM (s : nstate) (m : payload) : Prop :=
+  m = mk_payload s (B0 (BPrepareRequest (Timestamp s) (Nonce s) (TransactionHashes s))) /\ TsOK s.
+Lemma t_makePrepareRequest force s0 :
+  hx s0 (makePrepareRequest cfg force) (fun r s tr => RI s0 s /\ trG G tr /\ forall m, r = Some m -> ReqM s m).
+Proof.
+  unfold makePrepareRequest. eapply x_call; [apply x_conj; [apply (i_Fill force)|apply (fill_ts force)]|].
+  intros ok s1 n1 ((R1 & T1) & Ts). cbn beta. destruct ok; cbn [negb].
+  - apply x_get. apply x_ret. rewrite app_nil_r. split; [exact R1|split; [exact T1|]]. intros m [= <-]. split; [reflexivity|auto].
   - apply x_ret. rewrite app_nil_r. split; [exact R1|split; [exact T1|discriminate]].
 Qed.
 
@@ -622,25 +638,26 @@ Proof.
   intros s0 H0 U0. unfold sendPrepareRequest.
   eapply x_call; [apply (t_makePrepareRequest force s0)|]. intros m1 s1 n1 (R1 & T1 & Ty1). cbn beta.
   pose proof (RI_Inv _ _ R1 H0) as I1. pose proof (RI_U _ _ R1 U0) as U1.
-  eapply x_call with (Qx := fun r s tr => Inv s /\ U s /\ trG G tr /\ forall m, r = Some m -> p_type m = PrepareRequestT).
+  eapply x_call with (Qx := fun r s tr => Inv s /\ U s /\ trG G tr /\ forall m, r = Some m -> ReqM s m).
   { destruct m1 as [x|].
     - apply x_ret. split; [exact I1|split; [exact U1|split; [apply trG_nil|]]]. intros m [= <-]. apply Ty1. reflexivity.
     - istep i_subscribe.
       eapply x_conseq; [apply (t_makePrepareRequest force s)|]. cbn. intros r0 s2 n2 (Ra & Ta & Tya).
       split; [exact (RI_Inv _ _ Ra H)|split; [exact (RI_U _ _ Ra H1)|split; [trs|exact Tya]]]. }
   intros m2 s2 n2 (I2 & U2 & T2 & Ty2). cbn beta. destruct m2 as [msg|].
-  - specialize (Ty2 msg eq_refl).
-    istep i_unsubscribe.
+  - destruct (Ty2 msg eq_refl) as [Em Ts2]. assert (Tyq : p_type msg = PrepareRequestT) by (rewrite Em; reflexivity).
+    unfold unsubscribeFromTransactions at 1. apply x_modify.
     apply x_get. apply x_tset. intros l Hi Hl. apply x_modify.
     lazymatch goal with |- hx ?st _ _ => set (s4 := st) end.
-    assert (I4 : Inv s4). { match goal with H : Inv ?s |- _ => match type of Hl with context[s] => destruct H as (J1 & J2 & J3 & J4 & J5) end end.
+    assert (I4 : Inv s4). { destruct I2 as (J1 & J2 & J3 & J4 & J5).
       unfold Inv, s4. cbn. repeat split; auto.
-      eapply tall_set; [exact J1| |exact Hl]. intros p [= <-]. left. exact Ty2. }
+      eapply tall_set; [exact J1| |exact Hl]. intros p [= <-]. left. exact Tyq. }
     assert (U4 : U s4) by (unfold U, s4 in *; cbn; assumption).
     unfold broadcast at 1. apply x_assoc. apply x_get. unfold ask_unit at 1. apply x_ask. intros [] c Hc.
     apply sel_Broadcast in Hc. subst c.
     assert (Gb : G s4 (CBroadcast (msg <| p_idx := u16 (MyIndex s4) |>))).
-    { apply G_broadcast_ungated; [rewrite Ty2; repeat split; discriminate|exact U4]. }
+    { unfold G. rewrite p_type_set_idx, Tyq. split; [|intros _; exact U4].
+      unfold ReqGuard. rewrite p_body_set_idx. rewrite Em. unfold s4. cbn. repeat split. exact Ts2. }
     istep (i_updateExistingPayloads msg).
     unfold ask_now at 1. apply x_ask. intros t c Hc. apply x_modify. apply x_get.
     lazymatch goal with |- hx ?st _ _ => set (s6 := st) end.
@@ -1153,6 +1170,9 @@ Theorem commit_gate st ev sc st' tr s p : Reach cfg st -> step cfg st ev sc = Ok
 Proof. intros HR Hs Hin Ty. pose proof (gate_at _ _ _ _ _ _ _ HR Hs Hin) as [H _]. rewrite Ty in H. exact H. Qed.
 Theorem precommit_gate st ev sc st' tr s p : Reach cfg st -> step cfg st ev sc = Ok (st', tr) ->
   In (s, CBroadcast p) tr -> p_type p = PreCommitT -> PreCommitGuard cfg s.
+Proof. intros HR Hs Hin Ty. pose proof (gate_at _ _ _ _ _ _ _ HR Hs Hin) as [H _]. rewrite Ty in H. exact H. Qed.
+Theorem request_gate st ev sc st' tr s p : Reach cfg st -> step cfg st ev sc = Ok (st', tr) ->
+  In (s, CBroadcast p) tr -> p_type p = PrepareRequestT -> ReqGuard cfg s p.
 Proof. intros HR Hs Hin Ty. pose proof (gate_at _ _ _ _ _ _ _ HR Hs Hin) as [H _]. rewrite Ty in H. exact H. Qed.
 Theorem broadcast_undecided st ev sc st' tr s p : Reach cfg st -> step cfg st ev sc = Ok (st', tr) ->
   In (s, CBroadcast p) tr -> p_type p <> RecoveryMessageT -> blockProcessed s = false.
